@@ -10,7 +10,7 @@ RULE = ('one case = one backend (in-memory MemStore, SqliteStorage on a file, Lm
         'for the persistent backends a real close + reopen is inserted after arbitrary prefixes. Observations are compared with the Lean reference model; the keyspace list with the relation listOk. '
         'non-trivial = at least one tombstone, one overwrite or one reopen; distinct by hash')
 ASSUMPTIONS = ['calls outside the contract are not generated (remove_tombstones on a live id: the three backends do three different things)',
-               'LMDB map size is 10 MiB: payload totals per case stay below it (a capacity limit, reported, not a violation)',
+               'LMDB map size is 10 MiB and cannot be configured: listed as known finding F2 (replayed on every run); the GENERATED cases keep their payload totals below it so that the rest of the backend is still exercised',
                'SQLite/LMDB internals and real power-loss durability are not modelled; reopen = close + open of the same files']
 TRUSTED_BASE = ['correspondence: dcharness (real MemStore / SqliteStorage / LmdbStorage through the Storage trait) vs dcdriver (Datacake.Storage reference model)']
 THEOREM_NOTE = 'Datacake.Storage (Model/Storage.lean): put/multiPut/markTombstone/markManyTombstone/removeTombstones/get/multiGet/iterMetadata/listOk'
@@ -126,7 +126,7 @@ def oracle2(case, impl, model):
             for e in ess:
                 if e not in lst: bad.append('kslist: keyspace %s holds metadata but is not listed (%s)' % (e, lst))
             for l in lst:
-                if l not in tch: bad.append('kslist: keyspace %s listed but never used' % l)
+                if l not in tch: bad.append('kslist: keyspace %s is listed although no mutating call ever named it (a read must not create a keyspace)' % l)
     return bad
 
 
@@ -144,3 +144,19 @@ def stats(verdicts):
             d[k] = d.get(k, 0) + 1
             if ' z' in l and ':' in l: d['large_payloads'] = d.get('large_payloads', 0) + 1
     return d
+
+
+def explain(v):
+    """F2 (known finding): the LMDB environment is opened with a fixed 10 MiB map.  A violation is attributed to it iff the case
+    runs on LMDB, a call was refused with MDB_MAP_FULL, and nothing deviates BEFORE that call (what follows a refused write
+    necessarily differs from the reference model)."""
+    if ' lmdb ' not in v['case'][0] + ' ':
+        return None
+    first = next((i for i, o in enumerate(v['impl']) if 'MDB_MAP_FULL' in o), None)
+    if first is None:
+        return None
+    for (li, _line, _msg) in v['spec']:
+        if 0 <= li < first: return None
+    for d in v['disagree']:
+        if d[0] < first: return None
+    return 'F2-lmdb-map-size'
